@@ -78,6 +78,19 @@ CHECKS = {
         note="Assumes the FTC lemma, quad and interp1d contracts, ln as uninterpreted function, real arithmetic; sympy trusted. "
              "Point-isotherm obligations are shape-bounded. Known finding: TemkinApprox constant of integration.",
         technique="sympy CAS on the real methods; symbolic execution + z3 for point isotherms and call sites"),
+    'C13': dict(
+        category='proof',
+        text="The real iast_point / reverse_iast are executed symbolically for n = 2, 3, 4 components (the whole quantified range) on "
+             "isotherm stubs with uninterpreted spreading pressure and loading: the residual handed to scipy.optimize.root is proved "
+             "to be the spreading-pressure differences at the fictitious pressures, and on every returning path the fractions lie in "
+             "[0,1] and sum to 1, all spreading pressures are equal, the ideal-mixing rule holds and loadings = x_i n_t; failures "
+             "raise CalculationError. Closed forms (Henry, equal-capacity Langmuir), permutation symmetry and the shared equation "
+             "system of forward/reverse IAST are z3 lemmas; the fraction/selectivity/VLE helpers are proved to return the stated "
+             "functions of the point calculation.",
+        design_ref='§3 C13',
+        note="Modulo the scipy.optimize.root contract (success => residual = 0) and uniqueness of the IAST solution; solver "
+             "convergence on real isotherms is a bounded supplement (reported separately).",
+        technique="symbolic execution of the real IAST code on contract stubs + z3 (nlsat/UF); z3 lemmas for closed forms"),
 }
 
 NOT_YET = {
